@@ -46,9 +46,22 @@ def run_engine(ctx, path, cases, tag):
 def source_has_f7_fix(repo):
     """The model parameter f7_fixed follows the source under test: the repaired reorg() restores
     the state root when rollforward fails."""
+    global F27_FIXED
+    F27_FIXED = source_has_f27_fix(repo)
     src = open(os.path.join(repo, "chain", "reorg.go")).read()
     m = re.search(r"if err := reorg\.rollforward\(\); err != nil \{(.*?)\n\t\}", src, re.S)
     return bool(m and "SetRoot" in m.group(1))
+
+
+F27_FIXED = False
+
+
+def source_has_f27_fix(repo):
+    """Model parameter f27_fixed: chaindb.go:isMainChain applies the height test also to BlockNo 0
+    (fixes/F27_blockno_zero.diff)."""
+    src = open(os.path.join(repo, "chain", "chaindb.go")).read()
+    m = re.search(r"func \(cdb \*ChainDB\) isMainChain\(.*?\n\}", src, re.S)
+    return bool(m and "blockNo > 0 &&" not in m.group(0) and "blockNo != bestNo+1" in m.group(0))
 
 
 # ------------------------------------------------------------------ generators
@@ -202,10 +215,10 @@ def coq_case(case, out, f7_fixed):
     libs = case.get("lib") or [0] * len(case["arrivals"])
     arr = ["(%d, %d%%nat)" % (l, names.index(a)) for l, a in zip(libs, case["arrivals"])]
     exp = [flatten_step(ids, case, out, st, txuniv, nheights) for st in out["steps"]]
-    term = ("(mkCase %s [%s] [%s] [%s] [%s] %d%%nat %d%%nat %s [%s])" % (
+    term = ("(mkCase %s [%s] [%s] [%s] [%s] %d%%nat %d%%nat %s %s [%s])" % (
         gblk, "; ".join(coq_block(ids, b) for b in blocks), "; ".join(tbl), "; ".join(arr),
         ";".join(str(ids(t)) for t in txuniv), nheights, case.get("orphan_cap", 100),
-        "true" if f7_fixed else "false",
+        "true" if f7_fixed else "false", "true" if F27_FIXED else "false",
         "; ".join("[" + ";".join(str(x) for x in row) + "]" for row in exp)))
     return term, exp, ids
 
